@@ -19,6 +19,7 @@ CONSTANTS
   Switch <- SwitchQ
   Rewidth <- RewidthQ
   Charsets <- CharsQ
+  MCSecPre <- OneSecPre
   Depth = 3
 VIEW HView
 PROPERTY PFrameShape
